@@ -703,3 +703,492 @@ theorem rdr_of_info (a : A) (k : Pid) (r : Rid) (h : (info a k).rdr = some r) : 
       rw [this] at h; cases h
 
 end Uniflow.ATracer
+
+/-! ### frame: `receive`, `discard`, `resolve` (every fuel level), `flush`, `fillSource` and the loop of
+`Drop` never write the `writes` map -/
+
+namespace Uniflow.Tracer
+
+theorem flush_writes (strict : Bool) (r : Rid) (ps : List Pid) : ∀ t, (flush strict r ps t).2.1.writes = t.writes := by
+  induction ps with
+  | nil => intro t; rfl
+  | cons p ps ih =>
+    intro t
+    simp only [flush]
+    split
+    · split
+      · rfl
+      · simp only []; rw [ih]
+    · split
+      · rfl
+      · simp only []; rw [ih]
+
+theorem fillSource_writes (t : T) (pck : Pid) (j : Ans) (s : Pid) : (fillSource t pck j s).writes = t.writes := by
+  unfold fillSource
+  split <;> rfl
+
+theorem resolve_writes (strict : Bool) : ∀ (fuel : Nat) (t : T) (p : Pid), (resolve strict fuel t p).1.writes = t.writes := by
+  intro fuel
+  induction fuel with
+  | zero => intro t p; rfl
+  | succ n ih =>
+    intro t p
+    have hfold : ∀ (srcs : List Pid) (acc : T × List Ev) (pck : Pid) (j : Ans),
+        (srcs.foldl (fun (acc : T × List Ev) s =>
+          let (t1, e1) := resolve strict n (fillSource acc.1 pck j s) s
+          (t1, acc.2 ++ e1)) acc).1.writes = acc.1.writes := by
+      intro srcs
+      induction srcs with
+      | nil => intro acc pck j; rfl
+      | cons s ss ihs =>
+        intro acc pck j
+        simp only [List.foldl_cons]
+        rw [ihs]
+        simp only [ih, fillSource_writes]
+    simp only [resolve]
+    repeat' split
+    all_goals (first | rfl | (simp only [flush_writes, hfold]))
+
+theorem receive_writes (t : T) (p : Pid) (a : Ans) : (receive t p a).writes = t.writes := rfl
+
+theorem discard_writes (t : T) (p : Pid) : (discard t p).writes = t.writes := by
+  unfold discard; split <;> rfl
+
+/-- the loop of `Drop` never touches `writes` -/
+theorem dropLoop_writes (strict : Bool) (ps : List Pid) : ∀ t, (dropLoop strict ps t).1.writes = t.writes := by
+  induction ps with
+  | nil => intro t; rfl
+  | cons p ps ih =>
+    intro t
+    simp only [dropLoop]
+    rw [ih, resolve_writes, receive_writes]
+
+/-- **`Drop(w)` detaches the writer**, for every tracer state (no well-formedness needed), strict or not. -/
+theorem dropW_detaches (strict : Bool) (t : T) (w : Wid) : aget (dropW strict t w).1.writes w = none := by
+  unfold dropW
+  rw [dropLoop_writes]
+  simp [aget_adel]
+
+/-- … and leaves every other writer's queue as it was. -/
+theorem dropW_other (strict : Bool) (t : T) (w w' : Wid) (h : w' ≠ w) :
+    aget (dropW strict t w).1.writes w' = aget t.writes w' := by
+  unfold dropW
+  rw [dropLoop_writes]
+  simp [aget_adel, h]
+
+/-- `Write` / `Receive` change `writes` only at their own writer (`resolve` never touches it). -/
+theorem receiveW_writes_other (strict : Bool) (t : T) (w w' : Wid) (a : Option Ans) (h : w' ≠ w) :
+    aget (receiveW strict t w a).1.writes w' = aget t.writes w' := by
+  unfold receiveW
+  split
+  · rfl
+  · simp only []
+    rw [resolve_writes]
+    cases a <;> simp [receive_writes, discard_writes, aget_setOrDel, h]
+
+end Uniflow.Tracer
+
+/-! ### `Drop` inside the refinement: `resolve` commutes with a replacement of the `writes` map, so
+`Drop(w)` is "answer every packet still awaited on `w` with a dropped packet, then forget the queue" -/
+
+namespace Uniflow.Tracer
+/-- replace the `writes` map -/
+def setW (t : T) (X : List (Wid × List Pid)) : T := { t with writes := X }
+
+theorem flush_setW (strict : Bool) (r : Rid) (X : List (Wid × List Pid)) (ps : List Pid) :
+    ∀ t, flush strict r ps (setW t X) = ((flush strict r ps t).1, setW (flush strict r ps t).2.1 X, (flush strict r ps t).2.2) := by
+  induction ps with
+  | nil => intro t; rfl
+  | cons p ps ih =>
+    intro t
+    simp only [flush, setW] at ih ⊢
+    split
+    · split
+      · rfl
+      · simp only []
+        have := ih { t with reader := adel t.reader p, receives := adel t.receives p }
+        simp only [] at this
+        rw [this]
+    · split
+      · rfl
+      · simp only []
+        have := ih { t with reader := adel t.reader p, receives := adel t.receives p }
+        simp only [] at this
+        rw [this]
+
+theorem fillSource_setW (t : T) (X : List (Wid × List Pid)) (pck : Pid) (j : Ans) (s : Pid) :
+    fillSource (setW t X) pck j s = setW (fillSource t pck j s) X := by
+  unfold fillSource setW
+  simp only []
+  split <;> rfl
+
+/-- one iteration of the `for _, source := range sources` loop of `resolve` -/
+def rstep (strict : Bool) (n : Nat) (pck : Pid) (j : Ans) (acc : T × List Ev) (s : Pid) : T × List Ev :=
+  ((resolve strict n (fillSource acc.1 pck j s) s).1, acc.2 ++ (resolve strict n (fillSource acc.1 pck j s) s).2)
+
+theorem rstep_eq (strict : Bool) (n : Nat) (pck : Pid) (j : Ans) :
+    (fun (acc : T × List Ev) s =>
+      let (t1, e1) := resolve strict n (fillSource acc.1 pck j s) s
+      (t1, acc.2 ++ e1)) = rstep strict n pck j := by
+  funext acc s; rfl
+
+/-- the hooks branch of `resolve` -/
+def hookStep (t : T) (pck : Pid) : T × List Ev :=
+  match aget t.hooks pck with
+  | some (_ + 1) =>
+    ({ t with hooks := adel t.hooks pck, receives := adel t.receives pck }, [Ev.hook pck (joinCells (getL t.receives pck))])
+  | _ => (t, [])
+
+/-- the sources branch -/
+def srcStep (strict : Bool) (n : Nat) (t : T) (pck : Pid) : T × List Ev :=
+  match aget t.sources pck with
+  | none => (t, [])
+  | some srcs =>
+    srcs.foldl (rstep strict n pck (joinCells (getL t.receives pck))) ({ t with sources := adel t.sources pck }, [])
+
+/-- the reader branch -/
+def tailStep (strict : Bool) (t : T) (pck : Pid) (ev : List Ev) : T × List Ev :=
+  match aget t.reader pck with
+  | some r =>
+    let f := flush strict r (getL t.reads r) t
+    ({ f.2.1 with reads := setOrDel f.2.1.reads r f.1 }, ev ++ f.2.2)
+  | none => ({ t with receives := adel t.receives pck }, ev)
+
+theorem resolve_succ (strict : Bool) (n : Nat) (t : T) (pck : Pid) :
+    resolve strict (n + 1) t pck =
+      if hasNil (getL t.receives pck) then (t, []) else
+      let h := hookStep t pck
+      if hasNil (getL h.1.receives pck) then h else
+      let s := srcStep strict n h.1 pck
+      tailStep strict s.1 pck (h.2 ++ s.2) := by
+  simp only [resolve, rstep_eq, hookStep, srcStep, tailStep]
+  repeat' split
+  all_goals first | rfl | simp_all
+
+theorem hookStep_setW (t : T) (X : List (Wid × List Pid)) (pck : Pid) :
+    hookStep (setW t X) pck = (setW (hookStep t pck).1 X, (hookStep t pck).2) := by
+  unfold hookStep setW
+  simp only []
+  split <;> rfl
+
+theorem tailStep_setW (strict : Bool) (t : T) (X : List (Wid × List Pid)) (pck : Pid) (ev : List Ev) :
+    tailStep strict (setW t X) pck ev = (setW (tailStep strict t pck ev).1 X, (tailStep strict t pck ev).2) := by
+  unfold tailStep
+  show (match aget t.reader pck with | some r => _ | none => _) = _
+  cases hr : aget t.reader pck with
+  | none => rfl
+  | some r =>
+    simp only []
+    show (let f := flush strict r (getL t.reads r) (setW t X); _) = _
+    simp only [flush_setW]
+    rfl
+
+theorem resolve_setW (strict : Bool) (X : List (Wid × List Pid)) : ∀ (fuel : Nat) (t : T) (p : Pid),
+    resolve strict fuel (setW t X) p = (setW (resolve strict fuel t p).1 X, (resolve strict fuel t p).2) := by
+  intro fuel
+  induction fuel with
+  | zero => intro t p; rfl
+  | succ n ih =>
+    intro t p
+    have hfold : ∀ (srcs : List Pid) (acc : T × List Ev) (pck : Pid) (j : Ans),
+        srcs.foldl (rstep strict n pck j) (setW acc.1 X, acc.2) =
+        (setW (srcs.foldl (rstep strict n pck j) acc).1 X, (srcs.foldl (rstep strict n pck j) acc).2) := by
+      intro srcs
+      induction srcs with
+      | nil => intro acc pck j; rfl
+      | cons s ss ihs =>
+        intro acc pck j
+        simp only [List.foldl_cons]
+        have h1 : rstep strict n pck j (setW acc.1 X, acc.2) s =
+            (setW (rstep strict n pck j acc s).1 X, (rstep strict n pck j acc s).2) := by
+          simp only [rstep, fillSource_setW, ih]
+        rw [h1]
+        exact ihs _ pck j
+    have hsrc : ∀ (t1 : T), srcStep strict n (setW t1 X) p =
+        (setW (srcStep strict n t1 p).1 X, (srcStep strict n t1 p).2) := by
+      intro t1
+      unfold srcStep
+      show (match aget t1.sources p with | none => _ | some srcs => _) = _
+      cases hs : aget t1.sources p with
+      | none => rfl
+      | some srcs =>
+        simp only []
+        exact hfold srcs ({ t1 with sources := adel t1.sources p }, []) p _
+    rw [resolve_succ, resolve_succ]
+    show (if hasNil (getL t.receives p) = true then _ else _) = _
+    by_cases h1 : hasNil (getL t.receives p) = true
+    · simp [h1]
+    · rw [hookStep_setW]
+      by_cases h2 : hasNil (getL (hookStep t p).1.receives p) = true
+      · have h2' : hasNil (getL (setW (hookStep t p).1 X).receives p) = true := h2
+        simp [h1, h2, h2']
+      · have h2' : ¬ hasNil (getL (setW (hookStep t p).1 X).receives p) = true := h2
+        simp only [h1, h2, h2', if_false, Bool.false_eq_true]
+        rw [hsrc, tailStep_setW]
+
+
+theorem dropLoop_setW (strict : Bool) (X : List (Wid × List Pid)) (ps : List Pid) :
+    ∀ t, dropLoop strict ps (setW t X) = (setW (dropLoop strict ps t).1 X, (dropLoop strict ps t).2) := by
+  induction ps with
+  | nil => intro t; rfl
+  | cons p ps ih =>
+    intro t
+    simp only [dropLoop]
+    have : receive (setW t X) p Ans.dropped = setW (receive t p Ans.dropped) X := rfl
+    rw [this, resolve_setW]
+    simp only [ih]
+
+theorem dropW_core (strict : Bool) (t : T) (w : Wid) :
+    dropW strict t w = (setW (dropLoop strict (getL t.writes w) t).1 (adel t.writes w), (dropLoop strict (getL t.writes w) t).2) := by
+  unfold dropW
+  exact dropLoop_setW strict _ _ t
+
+theorem receiveW_core (t : T) (w : Wid) (p : Pid) (rest : List Pid) (a : Ans) (h : getL t.writes w = p :: rest) :
+    receiveW true t w (some a) =
+      (setW (resolve true defaultFuel (receive t p a) p).1 (setOrDel t.writes w rest),
+       (resolve true defaultFuel (receive t p a) p).2) := by
+  unfold receiveW
+  rw [h]
+  simp only []
+  have : receive { t with writes := setOrDel t.writes w rest } p a = setW (receive t p a) (setOrDel t.writes w rest) := rfl
+  rw [this, resolve_setW]
+
+end Uniflow.Tracer
+
+namespace Uniflow.ATracer
+open Uniflow.Tracer
+open Uniflow.NodeSpec (PInfo optL)
+
+theorem trel_writes_congr (a : A) (t : T) (X : List (Wid × List Pid)) (h : TRel a t)
+    (hx : ∀ k, aget X k = aget a.wq k) : TRel a (setW t X) :=
+  ⟨h.panic, h.hooks, h.recv, h.src, h.tgt, h.rdr, h.reads, hx⟩
+
+theorem trel_wq_congr (a : A) (t : T) (wq' : List (Wid × List Pid)) (h : TRel a t)
+    (hx : ∀ k, aget t.writes k = aget wq' k) : TRel { a with wq := wq' } t :=
+  ⟨h.panic, h.hooks, h.recv, h.src, h.tgt, h.rdr, h.reads, hx⟩
+
+theorem inv_wq_congr (a : A) (wq' : List (Wid × List Pid)) (h : Inv a) (hx : ∀ k, getL wq' k = getL a.wq k) :
+    Inv { a with wq := wq' } :=
+  ⟨h.nodup, fun w k hk => h.owed w k (by rw [← hx w]; exact hk), fun w => by rw [hx w]; exact h.wnodup w,
+   fun w w' k h1 h2 => h.wdisj w w' k (by rw [← hx w]; exact h1) (by rw [← hx w']; exact h2), h.good⟩
+
+theorem hc_wq_congr (a : A) (wq' : List (Wid × List Pid)) (h : HC a) (hx : ∀ k, getL wq' k = getL a.wq k) :
+    HC { a with wq := wq' } := by
+  intro x hxm
+  exact hcreq_mono a.wq wq' x (h x hxm) (fun w q hq => by rw [hx w]; exact hq)
+
+theorem getL_adel_of_nil {β : Type} (m : List (Nat × List β)) (w k : Nat) (h : getL m w = []) :
+    getL (adel m w) k = getL m k := by
+  simp only [getL_eq, aget_adel]
+  by_cases e : k = w
+  · subst e; simp only [if_true]; rw [getL_eq] at h; exact h.symm
+  · simp [e]
+
+/-- **`Drop(w)` refines "answer every packet still awaited on `w` with a dropped packet, then forget the
+queue".** From related states it leads to related states, keeps all invariants, and leaves nothing
+queued on `w`; requests only leave or get cells filled (`stable`). -/
+theorem drop_refines (w : Wid) (Q : Req → Prop)
+    (hQ1 : ∀ (y0 : Req) (ans : Ans), Q y0 → Q { y0 with st := .cells [.filled ans] })
+    (hQ2 : ∀ (y0 : Req) (cs : List Cell) (k : Pid) (ans : Ans), y0.st = .cells cs → Q y0 → Q { y0 with st := .cells (fillCell k ans cs) }) :
+    ∀ (l : List Pid) (a : A) (t : T), TRel a t → Inv a → HF a.reqs → HC a → (∀ x ∈ a.reqs, Q x) → getL t.writes w = l →
+      ∃ a', TRel a' (setW (dropLoop true l t).1 (adel t.writes w)) ∧ Inv a' ∧ HF a'.reqs ∧ HC a' ∧
+        (∀ x ∈ a'.reqs, Q x) ∧ getL a'.wq w = [] ∧ (∀ k, k ≠ w → getL a'.wq k = getL a.wq k) := by
+  intro l
+  induction l with
+  | nil =>
+    intro a t h hi hf hc hq hl
+    have hlw : getL a.wq w = [] := by
+      have := h.writes w; rw [getL_eq, ← this, ← getL_eq]; exact hl
+    refine ⟨{ a with wq := adel a.wq w }, ?_, ?_, hf, ?_, hq, ?_, ?_⟩
+    · exact ⟨h.panic, h.hooks, h.recv, h.src, h.tgt, h.rdr, h.reads,
+        fun k => by show aget (adel t.writes w) k = aget (adel a.wq w) k; rw [aget_adel, aget_adel, h.writes k]⟩
+    · exact inv_wq_congr a _ hi (fun k => getL_adel_of_nil a.wq w k hlw)
+    · exact hc_wq_congr a _ hc (fun k => getL_adel_of_nil a.wq w k hlw)
+    · show getL (adel a.wq w) w = []
+      simp [getL_eq, aget_adel]
+    · intro k hk
+      show getL (adel a.wq w) k = getL a.wq k
+      simp [getL_eq, aget_adel, hk]
+  | cons p rest ih =>
+    intro a t h hi hf hc hq hl
+    -- one `Receive(w, dropped)`
+    obtain ⟨a1, t1, e1, e2, h1, hi1, _⟩ := trel_aanswer a t w Ans.dropped h hi
+    have ea : (acall a (.answer w Ans.dropped)).1 = a1 := by simp only [acall]; rw [e1]
+    have hi1' : Inv (acall a (.answer w Ans.dropped)).1 := by rw [ea]; exact hi1
+    have hf1 : HF a1.reqs := by rw [← ea]; exact hf_acall a _ hi hf
+    have hc1 : HC a1 := by rw [← ea]; exact hc_acall a _ hi hi1' hc
+    have hcore := receiveW_core t w p rest Ans.dropped hl
+    have et1 : t1 = setW (resolve true defaultFuel (receive t p Ans.dropped) p).1 (setOrDel t.writes w rest) := by
+      rw [hcore] at e2; exact (Prod.mk.inj e2).1.symm
+    -- Q survives the answer
+    have hlw : getL a.wq w = p :: rest := by
+      have := h.writes w; rw [getL_eq, ← this, ← getL_eq]; exact hl
+    have hq1 : ∀ x ∈ a1.reqs, Q x := by
+      have hgood : (aanswer a w Ans.dropped).1.bad = false := by rw [e1]; exact hi1.good
+      have hre : (aanswer a w Ans.dropped).1.reqs = a1.reqs := by rw [e1]
+      rw [← hre]
+      simp only [aanswer, hlw] at hgood ⊢
+      exact afill_reqs_pred { a with wq := setOrDel a.wq w rest } p Ans.dropped hi.nodup Q
+        (fun y hy _ => hq y hy) (fun y0 hy0 _ => hQ1 y0 _ (hq y0 hy0))
+        (fun y0 hy0 cs hst _ => hQ2 y0 cs p _ hst (hq y0 hy0)) hgood
+    have hwq1 : ∀ k, getL a1.wq k = if k = w then rest else getL a.wq k := by
+      intro k
+      have : a1.wq = setOrDel a.wq w rest := by
+        have := congrArg (fun x => x.1.wq) e1
+        simp only [aanswer, hlw, afill_wq] at this
+        exact this.symm
+      rw [this, getL_setOrDel]
+    have hl1 : getL t1.writes w = rest := by
+      rw [et1]; show getL (setOrDel t.writes w rest) w = rest; rw [getL_setOrDel]; simp
+    obtain ⟨a', g1, g2, g3, g4, g5, g6, g7⟩ := ih a1 t1 h1 hi1 hf1 hc1 hq1 hl1
+    refine ⟨a', ?_, g2, g3, g4, g5, g6, ?_⟩
+    · -- the tracer state reached by the loop of Drop, up to the `writes` map
+      have hd : (dropLoop true (p :: rest) t).1 = (dropLoop true rest (resolve true defaultFuel (receive t p Ans.dropped) p).1).1 := by
+        simp only [dropLoop]
+      have hd1 : (dropLoop true rest t1).1 = setW (dropLoop true rest (resolve true defaultFuel (receive t p Ans.dropped) p).1).1 (setOrDel t.writes w rest) := by
+        rw [et1, dropLoop_setW]
+      rw [hd1] at g1
+      rw [hd]
+      refine ⟨g1.panic, g1.hooks, g1.recv, g1.src, g1.tgt, g1.rdr, g1.reads, ?_⟩
+      intro k
+      have := g1.writes k
+      show aget (adel t.writes w) k = aget a'.wq k
+      rw [← this]
+      show aget (adel t.writes w) k = aget (adel t1.writes w) k
+      rw [et1]
+      show aget (adel t.writes w) k = aget (adel (setOrDel t.writes w rest) w) k
+      rw [aget_adel, aget_adel, aget_setOrDel]
+      by_cases e : k = w <;> simp [e]
+    · intro k hk
+      rw [g7 k hk, hwq1 k]; simp [hk]
+
+
+/-- what a related, settled, drained state says about the tracer's maps -/
+theorem residue_free_of_rel (a : A) (t : T) (Rp : Rid → Bool) (Wp : Wid → Bool) (hrel : TRel a t)
+    (hf : HF a.reqs) (hc : HC a) (hset : Settled Rp Wp a) (hw : ∀ w, Wp w = true → getL a.wq w = []) :
+    (∀ x ∈ a.reqs, Rp x.r = false) ∧
+    (∀ r, Rp r = true → aget t.reads r = none) ∧
+    (∀ k r, aget t.reader k = some r → Rp r = false) ∧
+    (∀ k, k ∉ ids a.reqs → aget t.receives k = none ∧ aget t.sources k = none ∧ aget t.targets k = none ∧ aget t.reader k = none) ∧
+    t.hooks = [] ∧ t.panic = false := by
+  have hnone := no_request_left a Rp Wp hf hc hset hw
+  refine ⟨hnone, ?_, ?_, ?_, hrel.hooks, hrel.panic⟩
+  · intro r hr
+    rw [hrel.reads r]
+    have : readsOf a r = [] := by
+      simp only [readsOf, List.map_eq_nil_iff, List.filter_eq_nil_iff]
+      intro x hx hxr
+      have := hnone x hx
+      simp only [decide_eq_true_eq] at hxr
+      rw [hxr, hr] at this; cases this
+    rw [this]; rfl
+  · intro k r hk
+    rw [hrel.rdr k] at hk
+    obtain ⟨x, hx, hxr⟩ := rdr_of_info _ k r hk
+    rw [← hxr]; exact hnone x hx
+  · intro k hk
+    have hi := info_fresh a k hk
+    exact ⟨by rw [hrel.recv k, hi], by rw [hrel.src k, hi], by rw [hrel.tgt k, hi], by rw [hrel.rdr k, hi]⟩
+
+/-- the loop-end calls: `Tracer.Drop(w)` for each writer in `ws`, in that order -/
+def dropAll (ws : List Wid) (t : T) : T := ws.foldl (fun t w => (dropW true t w).1) t
+
+theorem stOK_fill (Wp : Wid → Bool) (k : Pid) (ans : Ans) (cs : List Cell)
+    (h : stOK Wp (.cells cs) = true) : stOK Wp (.cells (fillCell k ans cs)) = true := by
+  simp only [stOK, Bool.and_eq_true, Bool.not_eq_true', List.all_eq_true] at h ⊢
+  refine ⟨?_, ?_⟩
+  · cases cs with
+    | nil => simp at h
+    | cons c cs' => cases c <;> simp [fillCell] <;> split <;> simp
+  · have h2 := h.2
+    clear h
+    induction cs with
+    | nil => intro c hc; simp [fillCell] at hc
+    | cons c cs' ih =>
+      intro c' hc'
+      have ih' := ih (fun x hx => h2 x (by simp [hx]))
+      cases c with
+      | linked q => have := h2 (.linked q) (by simp); simp [cellOK] at this
+      | written q w =>
+        simp only [fillCell] at hc'
+        split at hc'
+        · rcases List.mem_cons.mp hc' with e | e
+          · subst e; rfl
+          · exact h2 c' (by simp [e])
+        · rcases List.mem_cons.mp hc' with e | e
+          · subst e; exact h2 _ (by simp)
+          · exact ih' c' e
+      | filled b =>
+        simp only [fillCell] at hc'
+        rcases List.mem_cons.mp hc' with e | e
+        · subst e; rfl
+        · exact ih' c' e
+
+/-- Any protocol-conforming history, then `Drop` for every writer in `ws`: the result is still
+related to an abstract state satisfying all invariants, still settled, with nothing queued on any
+writer in `ws`. -/
+theorem dropAll_refines (Rp : Rid → Bool) (Wp : Wid → Bool) (ws : List Wid) :
+    ∀ (a : A) (t : T), TRel a t → Inv a → HF a.reqs → HC a → Settled Rp Wp a →
+      ∀ (done : List Wid), (∀ w ∈ done, getL a.wq w = []) →
+      ∃ a', TRel a' (dropAll ws t) ∧ Inv a' ∧ HF a'.reqs ∧ HC a' ∧ Settled Rp Wp a' ∧
+        (∀ w, w ∈ done ∨ w ∈ ws → getL a'.wq w = []) := by
+  induction ws with
+  | nil => intro a t h hi hf hc hs done hd; exact ⟨a, h, hi, hf, hc, hs, fun w hw => by rcases hw with h1 | h1; exact hd w h1; simp at h1⟩
+  | cons w ws ih =>
+    intro a t h hi hf hc hs done hd
+    obtain ⟨a1, g1, g2, g3, g4, g5, g6, g7⟩ :=
+      drop_refines w (fun x => Rp x.r = true → stOK Wp x.st = true)
+        (fun y0 ans _ _ => by simp [stOK, cellOK])
+        (fun y0 cs k ans hst hq hr => by
+          have := hq hr
+          rw [hst] at this
+          exact stOK_fill Wp k ans cs this)
+        (getL t.writes w) a t h hi hf hc hs rfl
+    have g1' : TRel a1 (dropW true t w).1 := by rw [dropW_core]; exact g1
+    have hd1 : ∀ w' ∈ w :: done, getL a1.wq w' = [] := by
+      intro w' hw'
+      rcases List.mem_cons.mp hw' with e | e
+      · subst e; exact g6
+      · by_cases e2 : w' = w
+        · subst e2; exact g6
+        · rw [g7 w' e2]; exact hd w' e
+    obtain ⟨a', k1, k2, k3, k4, k5, k6⟩ := ih a1 (dropW true t w).1 g1' g2 g3 g4 g5 (w :: done) hd1
+    refine ⟨a', k1, k2, k3, k4, k5, ?_⟩
+    intro w' hw'
+    apply k6 w'
+    rcases hw' with e | e
+    · left; simp [e]
+    · rcases List.mem_cons.mp e with e2 | e2
+      · left; simp [e2]
+      · right; exact e2
+
+end Uniflow.ATracer
+
+
+namespace Uniflow.ATracer
+open Uniflow.Tracer
+
+theorem dropAll_writes_other (ws : List Wid) (w : Wid) (h : w ∉ ws) :
+    ∀ t, aget (dropAll ws t).writes w = aget t.writes w := by
+  induction ws with
+  | nil => intro t; rfl
+  | cons w0 ws ih =>
+    intro t
+    simp only [List.mem_cons, not_or] at h
+    show aget (dropAll ws (dropW true t w0).1).writes w = _
+    rw [ih h.2, dropW_other true t w0 w h.1]
+
+theorem dropAll_writes_none (ws : List Wid) (w : Wid) (h : w ∈ ws) :
+    ∀ t, aget (dropAll ws t).writes w = none := by
+  induction ws with
+  | nil => simp at h
+  | cons w0 ws ih =>
+    intro t
+    show aget (dropAll ws (dropW true t w0).1).writes w = none
+    by_cases e : w ∈ ws
+    · exact ih e _
+    · rcases List.mem_cons.mp h with e1 | e1
+      · subst e1; rw [dropAll_writes_other ws w e]; exact dropW_detaches true t w
+      · exact absurd e1 e
+
+end Uniflow.ATracer
